@@ -274,6 +274,8 @@ func runC13(t *testing.T, cases []map[string]interface{}, ev *vEvents) {
 		{ClientID: "neither", ClientSecret: "s"},
 		{ClientID: "loose", ClientSecret: "s", AllowedRedirectURLRE: []string{`^.*$`}},
 		{ClientID: "prefixpat", ClientSecret: "s", AllowedRedirectURLRE: []string{`^https://([a-z.]+\.)?example\.com/`}},
+		{ClientID: "brokenpat", ClientSecret: "s", AllowedRedirectDomains: []string{"example.com"},
+			AllowedRedirectURLRE: []string{`^https://(?!debug\.)([a-z.]+\.)?example\.com/cb$`, `^https://example\.com/(cb$`}},
 	}
 	cookie := w.mintCookie("alice", AuthTypePassword, 0)
 	for i, c := range cases {
